@@ -81,8 +81,11 @@ def case_strategy(draw, max_steps):
     d = min(draw(st.sampled_from([1, 15, 28, 29, 30, 31, 31, 30, 29])), calendar.monthrange(y, m)[1])
     tr = T.transitions(zone) if zone else ()
     if tr and draw(st.integers(0, 2)) == 0:
-        # start within three weeks of one of the zone's offset changes (either side), so that short sequences cross it
-        w = D.datetime(1970, 1, 1) + D.timedelta(seconds=tr[draw(st.integers(0, len(tr) - 1))][0] + draw(st.integers(-21 * 86400, 21 * 86400)))
+        # start within three weeks of one of the zone's offset changes (either side), so that short sequences cross it; changes of a day or more
+        # (a calendar day that does not exist) are as likely as all the others together
+        big = [x for x in tr if abs(x[2] - x[1]) >= 86400]
+        pool = big if big and draw(st.booleans()) else tr
+        w = D.datetime(1970, 1, 1) + D.timedelta(seconds=pool[draw(st.integers(0, len(pool) - 1))][0] + draw(st.integers(-21 * 86400, 21 * 86400)))
         if 1902 <= w.year <= 2100:
             y, m, d = w.year, w.month, w.day
     steps = draw(st.one_of(st.integers(0, 5), st.integers(0, 60), st.integers(0, max_steps)))
@@ -209,6 +212,12 @@ class Range(Sub):
             if j < len(mseq) and mseq[j][1] is not None:
                 req(inst(got[j]) == mseq[j][1], "range() value differs from the independently computed start shifted by k*n units", k=mseq[j][0], got=str(got[j]), start=str(s),
                     unit=unit, n=n, expected_instant_us=mseq[j][1])
+        if z and not case["date"]:
+            # each value is a DateTime of the zone in its normal form: the wall clock and offset the zone shows at that instant
+            for j in idx:
+                back = T.render(inst(got[j]), z)
+                req(T.fields(back) == T.fields(got[j]) and back.utcoffset() == got[j].utcoffset(), "range() yields a wall time / offset that does not exist in the zone at that instant",
+                    got=str(got[j]), zone_shows=back.isoformat(), k=j)
         if got:
             req(key(got[0]) == key(s), "first value is not the start", got=str(got[0]))
         for a, b in zip(got, got[1:]):
